@@ -329,43 +329,55 @@ def run(rep: Report, prog: Program, tier: str) -> None:
 
     # ---- R14.5 breaker events
     rep.rule("R14.5", "_emit_breaker_event reports attempt 0, sleep 0.0 and tags['state'] = state.value to both sinks; emit_breaker_event forwards its event/state unchanged")
-    bf = prog.func("redress.policy.policy_helpers:_emit_breaker_event")
-    rep.analysed(bf.qual)
-    for p in engine(prog).paths(bf):
+    # decided on ExecutionContext.emit_breaker_event as a whole, with the private helper it delegates to (today
+    # policy_helpers._emit_breaker_event) inlined: which of the two functions builds the tags is the code's business
+    from ..ctx import cfgs
+    from ..paths import PathEngine, default_inline
+
+    e5 = PathEngine(prog, cfgs(prog))
+    base5 = default_inline()
+    e5.inline = lambda fn: base5(fn) or fn.name == "_emit_breaker_event"
+    xf = prog.func("redress.policy.execution:ExecutionContext.emit_breaker_event")
+    rep.analysed(xf.qual)
+    if "redress.policy.policy_helpers:_emit_breaker_event" in prog.funcs:
+        rep.analysed("redress.policy.policy_helpers:_emit_breaker_event")
+    EV5, ST5 = ("param", "event"), ("param", "state")
+
+    def present_attr5(p: SymPath, name: str) -> bool | None:
+        for a, pol, _ in p.conds:
+            if a == ("cmp", "is", attr(SELF, name), ("const", None)):
+                return not pol
+        return None
+
+    for p in e5.paths(xf):
         mcalls = [e for e in p.calls() if e.callback() == "on_metric"]
         lcalls = [e for e in p.calls() if e.callback() == "on_log"]
-        rep.instance("R14.5", "|".join(p.describe()[-3:])[:120])
+        none_ev = any(a == ("cmp", "is", EV5, ("const", None)) and pol for a, pol, _ in p.conds)
+        rep.instance("R14.5", f"emit_breaker_event|event_none={none_ev}|" + "|".join(p.describe()[-3:])[:100])
         problem = None
-        for e in mcalls:
-            t = e.args[3] if len(e.args) == 4 else None
-            if e.args[:3] != [("param", "event"), ("const", 0), ("const", 0.0)] or t is None or t[0] != "dict" or dict((k[1], v) for k, v in t[1] if k[0] == "const").get("state") != attr(("param", "state"), "value"):
-                problem = f"on_metric receives {[show(a) for a in e.args]}"
-        for e in lcalls:
-            f = e.args[1] if len(e.args) > 1 else None
-            d = {k[1] if k[0] == "const" else "**": v for k, v in f[1]} if f is not None and f[0] == "dict" else {}
-            if e.args[0] != ("param", "event") or d.get("attempt") != ("const", 0) or d.get("sleep_s") != ("const", 0.0) or "**" not in d:
-                problem = problem or f"on_log receives {[show(a) for a in e.args]}"
-        mp = present_param(p, "on_metric")
-        lp = present_param(p, "on_log")
-        if mp is None or lp is None or (len(mcalls) == 1) != mp or (len(lcalls) == 1) != lp:
-            problem = problem or f"sinks called metric={len(mcalls)} log={len(lcalls)} with presence metric={mp} log={lp}"
-        if problem:
-            rep.fail("R14.5", f"_emit_breaker_event|{problem[:50]}", f"_emit_breaker_event: {problem}", where=bf.where(), function=bf.qual, path=p.describe())
-        else:
-            rep.ok("R14.5")
-    xf = prog.func("redress.policy.execution:ExecutionContext.emit_breaker_event")
-    for p in engine(prog).paths(xf):
-        calls = [e for e in p.calls() if e.is_repo(":_emit_breaker_event")]
-        none_ev = any(a == ("cmp", "is", ("param", "event"), ("const", None)) and pol for a, pol, _ in p.conds)
-        rep.instance("R14.5", f"emit_breaker_event|event_none={none_ev}")
         if none_ev:
-            ok = not calls
+            if mcalls or lcalls:
+                problem = "a sink is called although there is no event to report"
         else:
-            ok = len(calls) == 1 and calls[0].kwargs.get("event") == ("param", "event") and calls[0].kwargs.get("state") == ("param", "state") and calls[0].kwargs.get("klass") == ("param", "klass") and calls[0].kwargs.get("on_metric") == attr(SELF, "on_metric") and calls[0].kwargs.get("on_log") == attr(SELF, "on_log") and calls[0].kwargs.get("operation") == attr(SELF, "operation")
-        if ok:
+            for e in mcalls:
+                t = e.args[3] if len(e.args) == 4 else None
+                if e.args[:3] != [EV5, ("const", 0), ("const", 0.0)] or t is None or t[0] != "dict" or dict((k[1], v) for k, v in t[1] if k[0] == "const").get("state") != attr(ST5, "value"):
+                    problem = f"on_metric receives {[show(a) for a in e.args]}"
+                elif e.recv is not None and False:
+                    pass
+            for e in lcalls:
+                f = e.args[1] if len(e.args) > 1 else None
+                d = {k[1] if k[0] == "const" else "**": v for k, v in f[1]} if f is not None and f[0] == "dict" else {}
+                if e.args[0] != EV5 or d.get("attempt") != ("const", 0) or d.get("sleep_s") != ("const", 0.0) or "**" not in d:
+                    problem = problem or f"on_log receives {[show(a) for a in e.args]}"
+            mp = present_attr5(p, "on_metric")
+            lp = present_attr5(p, "on_log")
+            if mp is None or lp is None or (len(mcalls) == 1) != mp or (len(lcalls) == 1) != lp:
+                problem = problem or f"sinks called metric={len(mcalls)} log={len(lcalls)} with presence metric={mp} log={lp}"
+        if problem:
+            rep.fail("R14.5", f"emit_breaker_event|{problem[:50]}", f"ExecutionContext.emit_breaker_event: {problem}", where=xf.where(), function=xf.qual, path=p.describe())
+        else:
             rep.ok("R14.5")
-        else:
-            rep.fail("R14.5", f"emit_breaker_event|forward|none={none_ev}", f"ExecutionContext.emit_breaker_event does not forward event/state/klass/hooks unchanged: {p.describe()}", where=xf.where(), function=xf.qual)
     rep.floor("R14.5", 6)
 
     _delay_applied(rep, prog)
@@ -486,3 +498,13 @@ def _delay_applied(rep: Report, prog: Program) -> None:
 
     sleep_action_tables(rep, "R14.8", prog)
     rep.floor("R14.8", 12)
+
+    from .common import forwarding_slice
+
+    forwarding_slice(rep, "R14.10", prog, ("on_metric", "on_log", "operation", "capture_timeline"), "the sinks that receive the event stream are the caller's: on_metric, on_log, operation and capture_timeline reach the run state unchanged through every layer incl. the bound contexts (= their obligations of C12 R12.3)")
+
+    rep.rule("R14.11", "the captured timeline receives the same sequence as the hooks: every entry's attempt, event and sleep_s are the ones the metric hook was called with (elapsed_s is the collector's own clock)")
+    from .common import timeline_record
+
+    timeline_record(rep, "R14.11", prog)
+    rep.floor("R14.11", 1)
